@@ -188,17 +188,27 @@ type c05Write struct {
 }
 
 type c05Rec struct {
-	Client   int
-	Op       c05Op
-	Inv, Ret int64
-	Status   int
-	Code     string
-	SawW     int // for reads: which write was observed (0 = absent, -1 = unattributable)
-	Detail   string
-	InWindow bool // a lookup of the object path failed with ENOENT while a publisher was between remove and link/rename
+	Client      int
+	Op          c05Op
+	Inv, Ret    int64
+	Status      int
+	Code        string
+	SawW        int // for reads: which write was observed (0 = absent, -1 = unattributable)
+	Detail      string
+	First, Last int  // first and last storage step of the request that changed something under the key (0: none)
+	InWindow    bool // a lookup of the object path failed with ENOENT while a publisher was between remove and link/rename
 }
 
 func c05CT(w int) string { return fmt.Sprintf("application/x-w%d", w) }
+
+// c05Only is a second user-metadata entry that only the writes with an odd number carry, under a name of
+// their own: an attribute that a later writer does not overwrite and therefore has to clear.
+func c05Only(w int) KV {
+	if w%2 == 1 {
+		return KV{K: fmt.Sprintf("X-Amz-Meta-Only%d", w), V: "1"}
+	}
+	return KV{K: "X-Amz-Meta-Plain", V: "1"}
+}
 
 type regIn struct {
 	Kind string
@@ -263,7 +273,7 @@ func (c05) Exec(c *core.Case) (out *core.Outcome) {
 				writes[op.W] = &c05Write{W: op.W, Data: srcData, ETag: s3c.ETagOf(srcData), CT: c05CT(op.W)}
 			case "complete":
 				wr := mkWrite(op.W, op.Size)
-				res := root.Do(s3c.CreateMPU(bkt, p.Key, KV{K: "Content-Type", V: wr.CT}, KV{K: "X-Amz-Meta-W", V: fmt.Sprint(op.W)}))
+				res := root.Do(s3c.CreateMPU(bkt, p.Key, KV{K: "Content-Type", V: wr.CT}, KV{K: "X-Amz-Meta-W", V: fmt.Sprint(op.W)}, c05Only(op.W)))
 				mustOK(res, "create mpu")
 				var init s3c.InitiateMPUResult
 				xml.Unmarshal(res.Resp.Body, &init)
@@ -289,7 +299,24 @@ func (c05) Exec(c *core.Case) (out *core.Outcome) {
 	objPath := bkt + "/" + p.Key
 	removed := map[int]bool{}
 	curRec := map[int]*c05Rec{}
+	stepNo := 0
 	e.S.OnResult = func(si *sim.StepInfo, res []reflect.Value) {
+		// the window of a request: from its first change under the key to its last step of any kind (the
+		// publishing linkat names the object relative to a directory descriptor, so paths alone would
+		// close the window too early)
+		stepNo++
+		if r := curRec[si.Task.ID]; r != nil {
+			if r.First == 0 && si.Mutate {
+				for _, pth := range si.Paths {
+					if strings.Contains("/"+pth+"/", "/"+objPath+"/") {
+						r.First = stepNo
+					}
+				}
+			}
+			if r.First != 0 {
+				r.Last = stepNo
+			}
+		}
 		if len(si.Paths) == 0 {
 			return
 		}
@@ -333,7 +360,7 @@ func (c05) Exec(c *core.Case) (out *core.Outcome) {
 				switch op.Kind {
 				case "put":
 					wr := writes[op.W]
-					rq := s3c.PutObject(bkt, p.Key, wr.Data, KV{K: "Content-Type", V: wr.CT}, KV{K: "X-Amz-Meta-W", V: fmt.Sprint(op.W)})
+					rq := s3c.PutObject(bkt, p.Key, wr.Data, KV{K: "Content-Type", V: wr.CT}, KV{K: "X-Amz-Meta-W", V: fmt.Sprint(op.W)}, c05Only(op.W))
 					rq.Mode = op.Mode
 					if op.Mode == s3c.ModeChunked {
 						rq.ChunkSizes = []int{16384}
@@ -342,7 +369,7 @@ func (c05) Exec(c *core.Case) (out *core.Outcome) {
 				case "copy":
 					wr := writes[op.W]
 					res = cl.Do(s3c.CopyObject(bkt, p.Key, bkt, "zz-copy-source",
-						KV{K: "X-Amz-Metadata-Directive", V: "REPLACE"}, KV{K: "Content-Type", V: wr.CT}, KV{K: "X-Amz-Meta-W", V: fmt.Sprint(op.W)}))
+						KV{K: "X-Amz-Metadata-Directive", V: "REPLACE"}, KV{K: "Content-Type", V: wr.CT}, KV{K: "X-Amz-Meta-W", V: fmt.Sprint(op.W)}, c05Only(op.W)))
 				case "complete":
 					pr := preps[op.W]
 					res = cl.Do(s3c.CompleteMPU(bkt, p.Key, pr.id, []s3c.CPart{{N: 1, ETag: pr.etag}}))
@@ -423,7 +450,14 @@ func (c05) Exec(c *core.Case) (out *core.Outcome) {
 			}
 			if atRest {
 				o.Probe("inconsistent_at_rest")
-				o.Violate("read-integrity-at-rest", fmt.Sprintf("C05/read-integrity-at-rest/%s/%s", detailKind(r.Detail), c05Store(c.Cfg)),
+				// the writers whose steps on the key's storage did not interleave at all (one had published
+				// before the next touched the key) are a case of their own: no race is left to explain it
+				disjoint := ""
+				if c05CommitsDisjoint(recs) {
+					disjoint = "/commits-disjoint"
+					o.Probe("inconsistent_at_rest_commits_disjoint")
+				}
+				o.Violate("read-integrity-at-rest", fmt.Sprintf("C05/read-integrity-at-rest/%s/%s%s", detailKind(r.Detail), c05Store(c.Cfg), disjoint),
 					"%s by client %d, with no write or delete in flight, returned a response that is not exactly one write: %s; history: %s", r.Op.Kind, r.Client, r.Detail, c05History(recs))
 				continue
 			}
@@ -547,6 +581,18 @@ func (c05) Exec(c *core.Case) (out *core.Outcome) {
 	return o
 }
 
+// c05CommitsDisjoint: no two requests' windows of changes under the key overlap.
+func c05CommitsDisjoint(recs []*c05Rec) bool {
+	for i, a := range recs {
+		for _, b := range recs[i+1:] {
+			if a.First != 0 && b.First != 0 && a.First <= b.Last && b.First <= a.Last {
+				return false
+			}
+		}
+	}
+	return true
+}
+
 func c05Store(cfg gw.Config) string {
 	if cfg.Sidecar {
 		return "sidecar"
@@ -596,6 +642,15 @@ func c05Attribute(resp *s3c.Resp, writes map[int]*c05Write, head bool) (int, str
 	wr := writes[mw]
 	if wr == nil {
 		return -1, fmt.Sprintf("unknown-writer: x-amz-meta-w=%q", resp.Get("X-Amz-Meta-W"))
+	}
+	for _, kv := range resp.Headers {
+		k := strings.ToLower(kv.K)
+		if mw != 100 && strings.HasPrefix(k, "x-amz-meta-") && k != "x-amz-meta-w" && k != strings.ToLower(c05Only(mw).K) {
+			return -1, fmt.Sprintf("meta-of-other-write: metadata of w%d together with %s, which that write did not supply", mw, kv.K)
+		}
+	}
+	if mw != 100 && !resp.Has(c05Only(mw).K) {
+		return -1, fmt.Sprintf("meta-of-other-write: metadata of w%d without its %s", mw, c05Only(mw).K)
 	}
 	if ct := resp.Get("Content-Type"); ct != wr.CT {
 		return -1, fmt.Sprintf("content-type-of-other-write: metadata of w%d but Content-Type %s", mw, ct)
